@@ -57,7 +57,7 @@ class TypeAuditor final : public ASTVisitor<TypeAuditor> {
   ExpressionType currentType{};
 
   std::vector<LocalData> localVars{};
-  std::vector<size_t> functionArgsID{};
+  std::vector<std::string> functionArgsID{};
   FunctionArguments functionArgs{};
 
   bool isTypification{ false };
